@@ -2202,13 +2202,38 @@ def check_refine_parent(ck, facts):
     R = "E10.refine-parent"
     fns = [f for f in facts.functions if f.tk != "pattern" and f.body is not None and "/kernel/geometry/mesh_node.hpp" in f.file]
     by_decl = {(f.qn, f.d.get("decl")): f for f in fns}
+    by_id = {f.d.get("decl"): f for f in fns if f.d.get("decl") is not None}
+
+    def is_closure_call(c):
+        return c.get("k") == "OpCall" and c.get("op") == "()" and c.get("ccls") == "<lambda>"
 
     def lookup(c):
-        return by_decl.get((c.get("callee"), c.get("cdecl")))
+        t = by_decl.get((c.get("callee"), c.get("cdecl")))
+        if t is None and is_closure_call(c):
+            t = by_id.get(c.get("cdecl"))        # call of a local closure: the (specialised) call operator it resolved to
+        return t
+
+    def own_nodes(f):
+        """nodes of f without the bodies of nested lambdas (those are functions of their own)"""
+        return featlib.walk(f.body, prune=lambda y: y.get("k") == "Lambda")
+
+    def lambda_home(f):
+        """(enclosing function, ordinal of the lambda in it) for a lambda call operator, else None"""
+        if "::<lambda@" not in f.qn:
+            return None
+        eq = f.qn.rsplit("::<lambda@", 1)[0]
+        want = f.spec_of if getattr(f, "spec_of", None) is not None else f.d.get("decl")
+        for g in fns:
+            if g.qn == eq:
+                lams = [x for x in g.nodes() if x.get("k") == "Lambda"]
+                for j, x in enumerate(lams):
+                    if x.get("op_decl") == want:
+                        return g, j
+        return None
 
     def sites_of(f):
         sites = []
-        for n in f.nodes():
+        for n in own_nodes(f):
             if n.get("k") in ("Construct", "TempObj") and re.match(r"^FEAT::Geometry::StandardRefinery<FEAT::Geometry::MeshPart<", n.get("ccls", "")) and len(n.get("a", [])) == 2:
                 sites.append(("refinery", n, n["a"][1]))
             if n.get("k") == "MCall" and re.search(r"MeshPartNode<.*>::refine$", n.get("callee", "")) and len(n.get("a", [])) == 1:
@@ -2224,22 +2249,31 @@ def check_refine_parent(ck, facts):
     callers = {}
     for g in fns:
         site_nodes = {id(n) for _, n, _ in site_map[id(g)]}
-        for c in g.nodes():
+        for c in own_nodes(g):
             if featlib.is_call(c) and c.get("callee") and id(c) not in site_nodes:
                 t = lookup(c)
                 if t is not None and t is not g:
                     callers.setdefault(id(t), []).append((g, c))
+    # a lambda that is not called directly (handed to an algorithm / stored) still belongs to the refinement step of its enclosing function
+    home = {id(f): lambda_home(f) for f in fns}
 
     def judge(f, parg, ctx, depth=0):
         """-> (ok|None, detail); ctx = (caller fn, call node) the function f was entered through, or None"""
         inits = local_inits(f)
+        if home.get(id(f)) is not None:
+            # variables a lambda captures are locals of its enclosing function (same declaration ids)
+            merged = dict(local_inits(home[id(f)][0]))
+            merged.update(inits)
+            inits = merged
         coarse = coarse_of(f, inits)
         up = ctx
         hops = 0
+        if up is None and home.get(id(f)) is not None:
+            up = (home[id(f)][0], None)
         while not coarse and up is not None and hops < 3:
             coarse = coarse_of(up[0], local_inits(up[0]))
             ups = callers.get(id(up[0]), [])
-            up = ups[0] if len(ups) == 1 else None
+            up = ups[0] if len(ups) == 1 else ((home[id(up[0])][0], None) if home.get(id(up[0])) is not None else None)
             hops += 1
         o = origin(parg, f, inits)
         if o is None:
@@ -2251,10 +2285,12 @@ def check_refine_parent(ck, facts):
             if ctx is not None and depth < 3:
                 g, c = ctx
                 names = [p["n"] for p in f.params]
-                if o[1] in names and names.index(o[1]) < len(c.get("a", [])):
+                off = 1 if is_closure_call(c) else 0       # the first operand of a closure call is the closure object
+                if o[1] in names and names.index(o[1]) + off < len(c.get("a", [])):
+                    arg = c["a"][names.index(o[1]) + off]
                     ups = callers.get(id(g), [])
-                    ok, detail = judge(g, c["a"][names.index(o[1])], ups[0] if len(ups) == 1 else None, depth + 1)
-                    return ok, "parent is parameter %s of %s, bound at %s:%s to `%s`: %s" % (o[1], f.name, g.name, c.get("l"), featlib.render(c["a"][names.index(o[1])]), detail)
+                    ok, detail = judge(g, arg, ups[0] if len(ups) == 1 else None, depth + 1)
+                    return ok, "parent is parameter %s of %s, bound at %s:%s to `%s`: %s" % (o[1], f.name, g.name, c.get("l"), featlib.render(arg), detail)
             pt = f.param_type(o[1]) or ""
             const_in = pt.lstrip().startswith("const ")
             return const_in, "parent is parameter %s (%s)%s" % (o[1], pt, "" if const_in else ": a mutable reference parameter is the node under construction, not the coarse parent")
@@ -2263,30 +2299,46 @@ def check_refine_parent(ck, facts):
                 featlib.render(parg), sorted(coarse, key=repr) if coarse else "of the node being refined")
         return None, "parent argument %s is a computed local" % featlib.render(parg)
 
+    # the specialisations of one generic lambda are one source function: their call sites are pooled
+    groups = {}
     for f in fns:
+        if site_map[id(f)]:
+            gk = ("L", f.spec_of) if getattr(f, "spec_of", None) is not None else ("F", id(f))
+            groups.setdefault(gk, []).append(f)
+    for gk, members in groups.items():
+        f = members[0]
         sites = site_map[id(f)]
-        if not sites:
-            continue
         ctxs = []
-        for g, c in callers.get(id(f), []):
-            # instantiations of one source function that call f from the same source line are one place
-            if not any(g2.qn == g.qn and c2.get("l") == c.get("l") for g2, c2 in ctxs):
-                ctxs.append((g, c))
+        for mf in members:
+            for g, c in callers.get(id(mf), []):
+                # instantiations of one source function that call f from the same source line are one place
+                if not any(g2.qn == g.qn and c2.get("l") == c.get("l") for g2, c2, _ in ctxs):
+                    ctxs.append((g, c, mf))
+        hm = home.get(id(f))
+        fname = "%s::%s" % (short(f.cls)[:110], f.name) if hm is None else "%s::%s/lambda#%d" % (short(hm[0].cls)[:110], hm[0].name, hm[1])
         for num, (kind, n, parg) in enumerate(sites):
-            base = "%s::%s/%s%d" % (short(f.cls)[:110], f.name, kind, num)
+            base = "%s/%s%d" % (fname, kind, num)
             if len(ctxs) >= 2:
                 # a shared helper: one instance per place that refines parts through it
                 per_caller = {}
-                for g, c in ctxs:
+                for g, c, mf in ctxs:
                     j = per_caller[id(g)] = per_caller.get(id(g), -1) + 1
                     key = "%s@%s#%d" % (base, g.name, j)
-                    ok, detail = judge(f, parg, (g, c))
+                    msites = site_map[id(mf)]
+                    if num >= len(msites):
+                        ck.incomplete(R, "%s: the specialisations of the lambda differ in their refinery sites" % key)
+                        continue
+                    ok, detail = judge(mf, msites[num][2], (g, c))
                     if ok is None:
                         ck.incomplete(R, "%s: %s" % (key, detail))
                     else:
                         ck.ob(R, key, ok, detail + " (helper entered from %s line %s)" % (g.name, c.get("l")), f.file, n.get("l"))
             else:
-                ok, detail = judge(f, parg, ctxs[0] if ctxs else None)
+                mf = ctxs[0][2] if ctxs else f
+                if num >= len(site_map[id(mf)]):
+                    ck.incomplete(R, "%s: the specialisations of the lambda differ in their refinery sites" % base)
+                    continue
+                ok, detail = judge(mf, site_map[id(mf)][num][2], ctxs[0][:2] if ctxs else None)
                 if ok is None:
                     ck.incomplete(R, "%s: %s" % (base, detail))
                 else:
@@ -2756,6 +2808,20 @@ def check_collection_guards(ck, facts):
     R = "E10.collection-guards"
     fns = [f for f in facts.functions if f.tk != "pattern" and f.body is not None and f.file.endswith("/kernel/geometry/mesh_node.hpp")]
     by_decl = {(f.qn, f.d.get("decl")): f for f in fns}
+    by_id = {f.d.get("decl"): f for f in fns if f.d.get("decl") is not None}
+
+    def is_closure_call(c):
+        return c.get("k") == "OpCall" and c.get("op") == "()" and c.get("ccls") == "<lambda>"
+
+    def target(c):
+        t = by_decl.get((c.get("callee"), c.get("cdecl")))
+        if t is None and is_closure_call(c):
+            t = by_id.get(c.get("cdecl"))        # a local closure: the (specialised) call operator the call resolved to
+        return t
+
+    def call_args(c):
+        """arguments in the order of the callee's parameters (the first operand of a closure call is the closure object)"""
+        return c.get("a", [])[1:] if is_closure_call(c) else c.get("a", [])
 
     def strip(o):
         while o is not None and o.get("k") == "Cast":
@@ -2804,6 +2870,8 @@ def check_collection_guards(ck, facts):
         if c.get("k") == "MCall":
             o = strip(c.get("obj"))
             return o is None or o.get("k") == "This"
+        if is_closure_call(c):
+            return True           # a closure defined in a member function runs on the node it captured
         return c.get("k") == "Call" and bool(c.get("cstatic"))
 
     summaries = {}
@@ -2827,13 +2895,13 @@ def check_collection_guards(ck, facts):
                     if x.get("k") == "Ref" and x.get("d") in pdecl:
                         params.add(pdecl[x["d"]])
             if featlib.is_call(n) and depth < 3:
-                u = by_decl.get((n.get("callee"), n.get("cdecl")))
+                u = target(n)
                 if u is not None and u is not t and on_this(n):
                     uo, up = summary(u, depth + 1)
                     own |= uo
                     for i in up:
-                        if i < len(n.get("a", [])):
-                            a = strip(n["a"][i])
+                        if i < len(call_args(n)):
+                            a = strip(call_args(n)[i])
                             if a is not None and a.get("k") == "Member" and a.get("b", {}).get("k") == "This" and a["n"] in names:
                                 own.add(a["n"])
         summaries[id(t)] = (own, params)
@@ -2857,14 +2925,14 @@ def check_collection_guards(ck, facts):
             for c in featlib.walk(n, prune=lambda y: y.get("k") in ("Lambda", "Block", "If", "For", "ForRange", "While", "Do", "Switch")):
                 if not featlib.is_call(c):
                     continue
-                t = by_decl.get((c.get("callee"), c.get("cdecl")))
+                t = target(c)
                 if t is None or t is f or not on_this(c):
                     continue
                 own, params = summary(t)
                 cs = set(own)
                 for i in params:
-                    if i < len(c.get("a", [])):
-                        a = strip(c["a"][i])
+                    if i < len(call_args(c)):
+                        a = strip(call_args(c)[i])
                         if a is not None and a.get("k") == "Member" and a.get("b", {}).get("k") == "This" and a["n"] in names:
                             cs.add(a["n"])
                 for col in sorted(cs):
